@@ -9,7 +9,7 @@
    [table_ok]: the actor table is sorted and holds exactly the actors that have changes (the
    state remove_unused_actors establishes after every transaction). *)
 From AM Require Import Base.Prelude Base.Order Crdt.Types Crdt.Interp Crdt.Doc Crdt.Local Crdt.Commit
-  Crdt.CommitProofs Crdt.Txn Crdt.TxnProofs.
+  Crdt.CommitProofs Crdt.Txn Crdt.TxnProofs Crdt.UndoProofs.
 From AM Require Exec.TxnExec.
 Local Open Scope N_scope.
 
@@ -55,6 +55,28 @@ Theorem C28_rollback_queue_refuted :
   exists d o, table_ok d /\ txn_open d None = Ok o /\ txn_rollback o <> d /\
               queue (m_doc (t_m d)) <> [] /\ queue (m_doc (t_m (txn_rollback o))) = [].
 Proof. exact rollback_queue_refuted. Qed.
+
+(* ---------- the mechanism: the undo log of the op set ----------
+   [cols]: the index columns a local op rewrites when it adds itself as a successor of the ops it
+   supersedes (succ_count, successor ids with their increments, visible, text width, top);
+   [add_succ_with_undo] / [undo_succ] mirror OpSet::add_succ_with_undo / undo_succ line by line
+   (reverse iteration, succ_inc, the expose / delete flags, out-of-range positions = Panic).
+   For the inserts one local op produces — distinct rows (the ops of one register), positions
+   inside the columns, [si_len] = the row's successor count ([wf_ins]) — adding succeeds, logs one
+   entry per insert and undoing the log restores the columns EXACTLY. *)
+Theorem C28_undo_succ_restores : forall (c : cols) (ins : list sins),
+  NoDup (map si_pos ins) -> (forall i, In i ins -> wf_ins c i) ->
+  exists c' us, add_succ_with_undo c ins = Ok (c', us) /\ length us = length ins /                undo_succ c' us = Ok c.
+Proof. exact undo_succ_restores. Qed.
+Example C28_undo_succ_nonvacuous :
+  let c := mkCols [0; 1; 0] [true; true; true] [Some 1; Some 1; Some 1] [false; false; true] [((9, [1]), Some 2%Z)] in
+  let ins := [mkSI (12, [2]) 1 (Some 3%Z) 1 1; mkSI (12, [2]) 2 None 0 1] in
+  NoDup (map si_pos ins) /\ (forall i, In i ins -> wf_ins c i) /  exists c' us, add_succ_with_undo c ins = Ok (c', us) /    c_vis c' = [true; true; false] /\ c_top c' = [false; true; false] /\ c_cnt c' = [0; 2; 1].
+Proof.
+  cbv zeta. split; [repeat constructor; cbn; intuition discriminate|].
+  split; [intros i [<-|[<-|[]]]; unfold wf_ins; cbn; repeat split; try reflexivity; lia|].
+  eexists. eexists. split; [vm_compute; reflexivity|]. repeat split.
+Qed.
 
 (* non-vacuity: a document with two changes of actor [2]; a plain transaction by the NEW actor
    [1] (sorts first: the table grows at index 0 and shrinks back) doing a put and an insert-free
